@@ -1,10 +1,11 @@
-from checks import rbc, codec
+from checks import rbc, codec, box
 
 REGISTRY = {
     "C02": rbc.run,
     "C03": rbc.run,
     "C04": rbc.run,
     "C13": codec.run,
+    "C15": box.run,
 }
 
 RBC_NOTE = ("Trusted: Coq kernel + vm_compute; no axioms (Print Assumptions: closed under the global context). Premises in the "
@@ -36,7 +37,16 @@ META["C13"] = dict(engine="codec",
          "round 0..127, digest, tag and view; model tied to the code by differential evaluation on structured and malformed inputs; "
          "in addition the implementation's own round trip is run exhaustively over all 65536 identifiers.")
 
+BOX_NOTE = ("Trusted: Coq kernel + vm_compute, no axioms. Sequential model of msg.Box hand-written and tied to msg/msgbox.go on every "
+            "run (per-operation observables + snapshot of the bookkeeping through a verif hook); the GC clock is the injected ticker.")
+META["C15"] = dict(engine="box", note=BOX_NOTE,
+    text="Bounds, shed-not-fail, release on start, release on expiry and not-throttled proved in Coq for arbitrary operation lists "
+         "(inductive invariant); four upstream defects repaired (fix: commits) with their witnesses kept as _refuted theorems; "
+         "model tied to the real Box by differential runs with bursts beyond each limit and idle periods.")
+
 ENGINES = {
+    "box": dict(path="coq/theories/Box + harness/core/box.go + checks/box.py", props=["C15"],
+                kind="Coq model of msg.Box (sequential + lock-granular concurrent); Go harness drives the real Box"),
     "codec": dict(path="coq/theories/Wire + harness/core/codec.go + checks/codec.py", props=["C13"],
                   kind="Coq model of the wire codecs; Go harness calls the real encoders/decoders through verif hooks"),
     "rbc": dict(path="coq/theories/RBC + harness/core/rbc.go + checks/rbc.py", props=["C02", "C03", "C04"],
